@@ -90,7 +90,7 @@ BUILTIN_NAMES = {"len", "range", "isinstance", "enumerate", "zip", "min",
                  "card", "dict", "hasattr", "getattr", "sum", "iff",
                  "distinct_upto", "select", "substr", "at",
                  "unchanged_since_head", "entry", "select_set", "head",
-                 "select_dict"}
+                 "select_dict", "select_list"}
 
 CONTAINER_METHODS = {"append", "pop", "insert", "extend", "remove", "index",
                      "reverse", "clear", "copy", "add", "discard", "keys",
